@@ -327,6 +327,12 @@ class Escape:
                 self.sources.append(src)
                 for c in src.excs:
                     items.append((src.node, c, src))
+            # T7: partial list operations on a local list built in the same function (`args = list(...)`; `args.pop(0)`, `args.remove(x)`):
+            #     IndexError / ValueError unless a dominating test says the list is non-empty / contains x
+            for src in self._partial_list_ops(f):
+                self.sources.append(src)
+                for c in src.excs:
+                    items.append((src.node, c, src))
             # T2: declared raises of the function itself (abstract / documented contract)
             if f.qn in self.declared:
                 src = Source(f, f.node, list(self.declared[f.qn]), 'declared contract', 'T2')
@@ -374,13 +380,19 @@ class Escape:
                         cal, how = r.callees(val, f)
                         if cal and how in ('direct', 'method') and all(not isinstance(g.node, ast.Lambda) and ann_optional(g.node.returns) for g in cal):
                             ok = True
+                        # T4v for mappings: `m.get(key)` without a default answers None for a missing key
+                        if not ok and isinstance(val.func, ast.Attribute) and val.func.attr == 'get' and len(val.args) == 1 and not val.keywords:
+                            recv_t = r.type_of(val.func.value, f)
+                            if any(a[0] == 'map' for a in recv_t) or (isinstance(val.func.value, ast.Attribute) and val.func.value.attr in ('contents', 'allobjects')):
+                                ok = True
                     if ok:
                         cand.setdefault(t.id, []).append(val)  # type: ignore[arg-type]
                     else:
                         disq.add(t.id)
                 else:
+                    # names (re)bound by a structured target; the receiver of `v.attr = ...` / `v[k] = ...` is a USE of v, not a binding
                     for x in ast.walk(t):
-                        if isinstance(x, ast.Name):
+                        if isinstance(x, ast.Name) and isinstance(x.ctx, ast.Store):
                             disq.add(x.id)
         out: List[Source] = []
         names = [v for v in cand if v not in disq]
@@ -436,6 +448,43 @@ class Escape:
         if isinstance(p, ast.Compare) and any(isinstance(o, (ast.Lt, ast.Gt, ast.LtE, ast.GtE)) for o in p.ops):
             return 'ordering comparison'
         return None
+
+    def _partial_list_ops(self, f: Func) -> List['Source']:
+        from .cfg import CFG
+        out: List[Source] = []
+        if isinstance(f.node, ast.Lambda):
+            return out
+        built = {t.id for n in f.walk() if isinstance(n, ast.Assign) and isinstance(n.value, ast.Call) and isinstance(n.value.func, ast.Name) and
+                 n.value.func.id == 'list' for t in n.targets if isinstance(t, ast.Name)}
+        if not built:
+            return out
+        cfg = None
+        for c in f.walk():
+            if not (isinstance(c, ast.Call) and isinstance(c.func, ast.Attribute) and isinstance(c.func.value, ast.Name) and c.func.value.id in built):
+                continue
+            v = c.func.value.id
+            if c.func.attr == 'pop' and len(c.args) == 1 and isinstance(c.args[0], ast.Constant) and isinstance(c.args[0].value, int):
+                exc, what = 'IndexError', f'`{v}.pop({c.args[0].value})` on a list that may be empty'
+            elif c.func.attr == 'remove' and len(c.args) == 1:
+                exc, what = 'ValueError', f'`{v}.remove(...)` of an element that may be absent'
+            else:
+                continue
+            if cfg is None:
+                cfg = CFG(f)
+            try:
+                st = cfg.stmt_of(c)
+            except AttributeError:
+                continue
+            guarded = False
+            for t, pol in cfg.dominating_tests(st):
+                if pol and ((isinstance(t, ast.Name) and t.id == v) or
+                            (isinstance(t, ast.Compare) and any(isinstance(x, ast.Call) and isinstance(x.func, ast.Name) and x.func.id == 'len' and x.args and
+                                                                isinstance(x.args[0], ast.Name) and x.args[0].id == v for x in ast.walk(t))) or
+                            (isinstance(t, ast.Compare) and isinstance(t.ops[0], ast.In) and isinstance(t.comparators[0], ast.Name) and t.comparators[0].id == v)):
+                    guarded = True
+            if not guarded:
+                out.append(Source(f, c, [exc], what, 'T7'))
+        return out
 
     def _insufficient_length_guards(self, f: Func) -> List['Source']:
         from .cfg import CFG
@@ -709,10 +758,10 @@ class Escape:
         e = Escape(repo, _CG(repo), {}, {})
         got = {(s.func.name, s.kind) for s in e.sources}
         problems = []
-        for want in (('bad_arith', 'T4'), ('bad_attr', 'T4'), ('bad_format', 'T1'), ('bad_var', 'T4'), ('bad_unpack', 'T5')):
+        for want in (('bad_arith', 'T4'), ('bad_attr', 'T4'), ('bad_format', 'T1'), ('bad_var', 'T4'), ('bad_unpack', 'T5'), ('bad_pop', 'T7'), ('bad_mapget', 'T4')):
             if want not in got:
                 problems.append(f'fixture source {want} not detected')
-        for ok_name, k in (('good_arith', 'T4'), ('good_var', 'T4'), ('good_unpack', 'T5')):
+        for ok_name, k in (('good_arith', 'T4'), ('good_var', 'T4'), ('good_unpack', 'T5'), ('good_pop', 'T7'), ('good_mapget', 'T4')):
             if (ok_name, k) in got:
                 problems.append(f'guarded fixture {ok_name} wrongly flagged')
         return problems
